@@ -182,3 +182,73 @@ def rule_no_direct_mutators(run):
     run.ob("crate|direct-partition-mutators", not direct, direct[0].sp if direct else "<crate>",
            "no direct PartitionHandle::insert/remove outside a Batch (%d found: %s)" % (len(direct), [c.sp for c in direct]),
            reason="write-outside-batch")
+
+
+# ------------------------------------------------------------------ expiry / GC (C01, C08, C09)
+
+GCTASK = "xs::store::GCTask"
+
+
+def gc_requests(run):
+    """[(body, send_call, variant, agg_expr)] for every GCTask constructed and sent."""
+    out = []
+    for b in run.facts.all_bodies():
+        for c in q.live_calls(b, C.UNBOUNDED_SEND):
+            if GCTASK not in c.fnx:
+                continue
+            a = strip(c.arg(1))
+            if a[0] == "agg" and a[1].get("adt") == GCTASK:
+                out.append((b, c, a[1]["variant"], a))
+                run.touch(b)
+    return out
+
+
+def expiry_tests(body):
+    """[(bb, call, true_edges, false_edges)] switches whose condition is a crate-local bool predicate over (&x.id, ttl-of-x)."""
+    out = []
+    for bb, si in body.switches():
+        if si["kind"] != "bool":
+            continue
+        cond = si["cond"]
+        if cond[0] == "call" and cond[1].local and len(cond[2]) == 2 and q.last_field(cond[2][0]) == "id":
+            out.append((bb, cond, q.edge_triples(body, bb, lambda m: m is True), q.edge_triples(body, bb, lambda m: m is False)))
+    return out
+
+
+def frame_base_of(e):
+    """fmt of the place the `.id` / `.ttl` projection is taken from (used to say 'the same frame')."""
+    x = strip(e)
+    n = 0
+    while n < 20:
+        n += 1
+        if x[0] == "field" and x[2] in ("id", "ttl", "topic", "context_id"):
+            return fmt(strip(x[1]))
+        if x[0] in ("field", "downcast", "deref", "ref"):
+            x = x[1]
+            continue
+        if x[0] == "call" and x[2]:
+            x = strip(x[2][0])
+            continue
+        break
+    return None
+
+
+def ttl_time_payload_base(e):
+    """If e is the payload of (<frame>.ttl as Some -> Time).0 return fmt(frame base)."""
+    x = strip(e)
+    seen_time = False
+    n = 0
+    while n < 30:
+        n += 1
+        if x[0] == "downcast" and x[2] == "Time":
+            seen_time = True
+        if x[0] == "field" and x[2] == "ttl":
+            return fmt(strip(x[1])) if seen_time else None
+        if x[0] in ("field", "downcast", "deref", "ref"):
+            x = x[1]
+            continue
+        if x[0] == "call" and x[2]:
+            x = strip(x[2][0])
+            continue
+        break
+    return None
